@@ -138,6 +138,12 @@ func NondetU64(name string) uint64 {
 func NondetInt(name string) int { v, _ := strconv.ParseInt(next("int", name), 10, 64); return int(v) }
 func NondetStr(name string) string { return next("str", name) }
 
+// NondetText is an arbitrary string that is not a canonical decimal numeral.
+func NondetText(name string) string { return next("text", name) }
+
+// NondetHuge is an arbitrary canonical decimal numeral outside the int64 range.
+func NondetHuge(name string) string { return next("huge", name) }
+
 // NondetAtom is an arbitrary string without a space character.
 func NondetAtom(name string) string { return next("atom", name) }
 func NondetHash(name string) chainhash.Hash {
